@@ -20,8 +20,12 @@ def run_one(prop, edits, tier="quick", patch=None):
             s = s.replace(old, new, 1)
             open(p, "w").write(s)
         env = dict(os.environ, VERIF_REPO=wt)
+        ev = f"/verif/evidence/{prop}.json"
+        saved = open(ev).read() if os.path.exists(ev) else None
         r = subprocess.run(["/verif/check", prop, tier], cwd="/verif", env=env, capture_output=True, text=True)
         out = r.stdout + r.stderr
+        if saved is not None:
+            open(ev, "w").write(saved)
         viol = [l for l in out.splitlines() if l.startswith("VIOLATION")]
         what = [l for l in out.splitlines() if l.startswith("# ")]
         return ("DETECTED" if r.returncode != 0 and viol else "MISSED"), "\n".join((what + viol)[:6]) + "\n" + out.splitlines()[-1]
